@@ -26,6 +26,8 @@ sh("git -C /repo worktree remove --force %s" % WT)
 sh("git -C /repo worktree add --detach %s %s" % (WT, head), check=True)
 need, clean, conflict, reverse_ok = [], [], [], []
 for p in files:
+    sh("git cherry-pick --abort", cwd=WT)
+    sh("git checkout -q --detach %s && git reset -q --hard && git clean -fdq" % head, cwd=WT, check=True)
     if sh("git apply --check %s" % p, cwd=WT).returncode == 0:
         continue
     need.append(p)
